@@ -86,3 +86,19 @@ def check_exception_inputs(tier, seed):
     rss = _runstates()
     for g, w, r in _shuffled(itertools.product(gots, wants, range(len(rss))), seed):
         yield {'exc_got': g, 'want': w, 'runstate': rss[r]}
+
+
+def doctest_failures(tier, seed):
+    """DocTest objects in every recorded-failure shape (C08.fail)."""
+    from xdoctest import doctest_example, doctest_part, checker, exceptions
+    excs = [None, ValueError('v'), KeyError('k'), checker.GotWantException('m', 'g', 'w'),
+            checker.ExtractGotReprException('m', ValueError('o')), exceptions.ExistingEventLoopError('e'),
+            exceptions.DoctestParseError('p'), SyntaxError('s')]
+    combos = _shuffled(itertools.product(range(len(excs)), [1, 7], [0, 3], [1, 2, 4], [['x'], ['x', 'y', 'z']], [False, True]), seed)
+    for e, lineno, off, tbl, lines, imp in combos:
+        dt = doctest_example.DocTest('>>> x = 1', lineno=lineno)
+        part = doctest_part.DoctestPart(list(lines), want_lines=['w'], line_offset=off)
+        dt.failed_part = '<IMPORT>' if imp else part
+        dt.failed_tb_lineno = tbl
+        dt.exc_info = None if excs[e] is None else (type(excs[e]), excs[e], None)
+        yield {'self': dt}
